@@ -215,7 +215,7 @@ func wrapBranch(name string, message profile.Message, branch BranchRegoResult, m
 		if iriExpander != nil {
 			traceResultPath, _ = iriExpander.Expand(r.Path)
 		}
-		matchesLine := fmt.Sprintf("  %s := trace(\"%s\",\"%s\",%s,%s)", bindingResult, r.ConstraintId(), traceResultPath, r.TraceNode, r.TraceValue)
+		matchesLine := fmt.Sprintf("  %s := trace(\"%s\",\"%s\",%s,%s)", bindingResult, r.ConstraintId(), misc.RegoStringContent(traceResultPath), r.TraceNode, r.TraceValue)
 		for _, l := range r.Rego {
 			// $message is a template variable of embedded Rego only: in the code generated for declarative
 			// constraints the same characters are profile text (a pattern, a list value)
@@ -236,7 +236,7 @@ func wrapBranch(name string, message profile.Message, branch BranchRegoResult, m
 
 			// set variable
 			varName := fmt.Sprintf("msg_var_%d", varIdx)
-			acc = append(acc, fmt.Sprintf("  %s := object.get(%s, \"%s\", \"null\")", varName, mappingVariable, expandedPath))
+			acc = append(acc, fmt.Sprintf("  %s := object.get(%s, \"%s\", \"null\")", varName, mappingVariable, misc.RegoStringContent(expandedPath)))
 			vars = append(vars, varName)
 		}
 
